@@ -10,7 +10,7 @@ S5 middleware guard: not streaming AND Content-Type starts with text/html.
 from __future__ import annotations
 
 import ast
-from typing import List, Optional, Tuple
+from typing import Dict, List, Optional, Tuple
 
 from ..astq import assignments, calls, kwarg, local_from, local_from_text, params, stmts
 from ..callgraph import fkey
@@ -35,6 +35,7 @@ def run(chk: Check, proj: Project) -> None:
     s6_gating(chk, proj, m)
     s7_frames(chk, proj, m)
     s8_reader_not_wider(chk, proj, m)
+    s9_optional_index(chk, proj, m)
 
 
 def placeholder_roles(f) -> dict:
@@ -50,6 +51,62 @@ def placeholder_roles(f) -> dict:
                     if isinstance(a, ast.Assign) and isinstance(a.value, ast.Constant) and a.value.value is True and isinstance(a.targets[0], ast.Name):
                         flags[kind] = a.targets[0].id
     return {"flags": flags, "deps": {"js": R["js"], "css": R["css"]}, "work": R["work"]}
+
+
+_INDEX_CALLS = ("start", "end", "find", "rfind", "index", "rindex")
+
+
+def optional_index_truthiness(f: ast.AST) -> Tuple[List[str], List[ast.AST]]:
+    """Variables of `f` that hold `None` or a string index (0 is a valid index), and the places where one of them is
+    tested by plain truthiness instead of `is (not) None`."""
+    defs: Dict[str, List[ast.AST]] = {}
+    for st in stmts(f):
+        for t, v in assign_targets(st):
+            if isinstance(t, ast.Name) and v is not None:
+                defs.setdefault(t.id, []).append(v)
+        if isinstance(st, ast.AnnAssign) and isinstance(st.target, ast.Name) and st.value is not None:
+            defs.setdefault(st.target.id, []).append(st.value)
+    idx = [v for v, ds in defs.items() if any(isinstance(d, ast.Constant) and d.value is None for d in ds)
+           and any(isinstance(d, ast.Call) and isinstance(d.func, ast.Attribute) and d.func.attr in _INDEX_CALLS for d in ds)]
+    bad: List[ast.AST] = []
+
+    def boolctx(e: ast.AST) -> None:
+        if isinstance(e, ast.Name) and e.id in idx:
+            bad.append(e)
+        elif isinstance(e, ast.BoolOp):
+            for v in e.values:
+                boolctx(v)
+        elif isinstance(e, ast.UnaryOp) and isinstance(e.op, ast.Not):
+            boolctx(e.operand)
+
+    for x in ast.walk(f):
+        if isinstance(x, (ast.If, ast.While, ast.IfExp)):
+            boolctx(x.test)
+        elif isinstance(x, ast.Assert):
+            boolctx(x.test)
+    return sorted(idx), bad
+
+
+_FIXTURE_OPT_INDEX = "def f(s, m):\n    i = None\n    if m:\n        i = m.start()\n    if i:\n        return s[:i]\n"
+
+
+def s9_optional_index(chk: Check, proj: Project, m) -> None:
+    chk.rule("S9", "a variable that is `None` or a position in the document (0 is a valid position) is never tested by plain truthiness")
+    fx = optional_index_truthiness(ast.parse(_FIXTURE_OPT_INDEX).body[0])
+    if fx[0] != ["i"] or len(fx[1]) != 1:
+        raise AnalysisError("optional-index lint lost its positive fixture")
+    n = 0
+    for q, f in sorted(m.defs.items()) if hasattr(m, "defs") else []:
+        if not isinstance(f, ast.FunctionDef):
+            continue
+        idx, bad = optional_index_truthiness(f)
+        for v in idx:
+            n += 1
+            b = [x for x in bad if x.id == v]
+            chk.ob("S9", f"dependencies:{q}:{v}:none-test", m.loc(b[0]) if b else m.loc(f), not b,
+                   f"`{v}` is only tested with `is None` / `is not None`" if not b else
+                   f"`{short(enclosing_stmt(b[0]))}` tests the position `{v}` by truthiness: when the end tag sits at offset 0 (a fragment that starts with </head>, or a marker directly followed by </body>) nothing is inserted there")
+    chk.floor("S9", n, 2)
 
 
 def s6_gating(chk: Check, proj: Project, m) -> None:
